@@ -125,6 +125,9 @@ def run(case, pulls, ctx, tag=""):
         except (fm.FinamTimeError, fm.FinamNoDataError, fm.FinamDataError) as e:
             ctx.violation(f"{kind}-refused{tag}", f"{kind} step={step} per_time={per_time}: pull at {p} min (prev {prev}) refused: {type(e).__name__}: {e}")
             return None
+        if getattr(r, "magnitude", None) is None or np.asarray(r.magnitude).dtype.kind not in "fiu":
+            ctx.violation(f"{kind}-value{tag}", f"{kind} step={step} per_time={per_time} unit={unit}: [{prev},{p}] min -> no numeric result ({r!r}); pubs {[(a, float(b)) for a, b in pubs][-6:]}")
+            return None
         got = float(np.asarray(r.magnitude).ravel()[0])
         if r.units != tools.UNITS.Unit(exp_unit):
             ctx.violation("units-data", f"{kind}(per_time={per_time}) on {unit!r}: delivered units {r.units!s}, expected {exp_unit!r}")
